@@ -653,20 +653,39 @@ func (cfg *Config) wordFields(wps []syntax.WordPart) ([][]fieldPart, error) {
 		fields = append(fields, curField)
 		curField = nil
 	}
+	// wsDelim is true when IFS whitespace just ended a field and nothing
+	// has been added since; a non-whitespace IFS character which follows
+	// is then part of the same delimiter.
+	wsDelim := false
 	splitAdd := func(val string) {
 		fieldStart := -1
 		for i, r := range val {
-			if cfg.ifsRune(r) {
-				if fieldStart >= 0 { // ending a field
-					curField = append(curField, fieldPart{val: val[fieldStart:i]})
-					fieldStart = -1
-				}
-				flush()
-			} else {
+			if !cfg.ifsRune(r) {
 				if fieldStart < 0 { // starting a new field
 					fieldStart = i
 				}
+				continue
 			}
+			if fieldStart >= 0 { // ending a field
+				curField = append(curField, fieldPart{val: val[fieldStart:i]})
+				fieldStart = -1
+			}
+			if cfg.ifsWhitespace(r) {
+				if len(curField) > 0 {
+					flush()
+					wsDelim = true
+				}
+				continue
+			}
+			// A non-whitespace IFS character always delimits a field,
+			// even if that field is empty.
+			if len(curField) == 0 && wsDelim {
+				wsDelim = false
+				continue
+			}
+			fields = append(fields, curField)
+			curField = nil
+			wsDelim = false
 		}
 		if fieldStart >= 0 { // ending a field without IFS
 			curField = append(curField, fieldPart{val: val[fieldStart:]})
@@ -732,6 +751,11 @@ func (cfg *Config) wordFields(wps []syntax.WordPart) ([][]fieldPart, error) {
 			wfield, err := cfg.wordField(wp.Parts, quoteDouble)
 			if err != nil {
 				return nil, err
+			}
+			if len(wfield) == 0 {
+				// An empty quoted string still makes its field exist,
+				// such as the second field in `$x""` when x is "a ".
+				curField = append(curField, fieldPart{quote: quoteDouble})
 			}
 			for _, part := range wfield {
 				part.quote = quoteDouble
